@@ -153,11 +153,14 @@ decodeRune:
 // The number of read bytes is returned, which is at least one
 // unless a read error occurred, such as [io.EOF].
 func (p *Parser) fill() (n int) {
-	if p.readEOF || p.r == runeEOF {
-		// If the reader already gave us [io.EOF], do not try again.
-		// If we decided to stop for any reason, do not bother reading either.
+	if p.r == runeEOF {
+		// If we decided to stop for any reason, do not bother reading.
 		return 0
 	}
+	// If the reader already gave us [io.EOF], p.readErr below ensures we do
+	// not read again, but the buffer must still be slid so that positions at
+	// the end of the input are the same whether or not the reader returned
+	// its last bytes together with io.EOF.
 	p.offs += int64(p.bsp)
 	left := len(p.bs) - int(p.bsp)
 	copy(p.readBuf[:left], p.readBuf[p.bsp:])
